@@ -39,6 +39,15 @@ Section Supported.
   Definition resolvable (m c : pstr) : bool :=
     negb (mem (qual m c) (f_missing F)) && match m, c with [], _ | _, [] => false | _, _ => true end.
 
+  (* the hidden-payload kind the loader re-derives from the class NAME (CodecLoad.hk_of over the facts of the load):
+     frozenset / deque and whatever else f_hkinds lists carry items the object path never stores (finding D09) *)
+  Definition hk_of_facts (m c : pstr) : hkind :=
+    match dget (qual m c) (f_hkinds F) with Some k => k | None => HKNone end.
+  (* a class the generic object path (object_get_state / ObjectNode / ConstructorFromReduceNode) handles completely: its
+     name resolves at load and everything the object is lies in what __getstate__() / __dict__ / __reduce__()[1] hands out *)
+  Definition plain_cls (m c : pstr) : bool :=
+    resolvable m c && match hk_of_facts m c with HKNone => true | _ => false end.
+
   Fixpoint supported (v : pval) {struct v} : bool :=
     let fix all (l : list pval) {struct l} : bool :=
       match l with [] => true | x :: l' => supported x && all l' end in
@@ -88,11 +97,26 @@ Section Supported.
            | PSeq QTuple _ _ _ _ (_ :: _) => pstr_eqb c (s "itemgetter")
            | _ => false
            end
-    | PObj _ m c HKNone [] OKState arg =>
-        (* scipy sparse *arrays* (csr_array, coo_array, ...) are not spmatrix instances: they take the __dict__ path *)
-        resolvable m c && supported arg
-        && match strip_prefix (s "scipy.sparse.") m with Some _ => true | None => false end
-        && match arg with PDict _ am ac _ => is_q am ac "builtins.dict" | _ => false end
+    | PObj _ m c HKNone [] ok arg =>
+        (* GENERAL user objects (object_get_state): any class whose name resolves at load and that has no hidden payload
+           (plain_cls).  scipy sparse *arrays* (csr_array, coo_array, ...: not spmatrix instances), estimators, pipelines,
+           user classes all take this path.  What the value says of such an object is its class name and the state it
+           hands out (DESIGN 3.4); that the class restores the state it is handed is the class's own contract.
+           - OKState: arg = __getstate__() (or __dict__): ANY supported value -- a dict with str keys (the usual case), but
+             also a tuple, a list, a number, a falsy value or None: ObjectNode._construct hands whatever construct() returns
+             to __setstate__ (to __dict__.update when the class has no __setstate__), EXCEPT None, for which nothing is
+             called; `not self.children["attrs"]` tests the child NODE (always truthy when there is a "content"), not the
+             state, so False / 0 / () / {} / "" states do reach __setstate__;
+           - OKNoState: neither __getstate__ nor __dict__ (no "content" in the state): cls.__new__(cls) only;
+           - OKReduce: __reduce__() == (type(obj), args), args a builtin tuple of supported values
+             (ConstructorFromReduceNode: the class called on the items of args) *)
+        plain_cls m c
+        && match ok with
+           | OKState => supported arg
+           | OKNoState => true
+           | OKReduce => supported arg && match arg with PSeq QTuple _ am ac _ _ => is_q am ac "builtins.tuple" | _ => false end
+           | OKRaise _ => false
+           end
     | _ => false
     end.
 End Supported.
